@@ -1,4 +1,5 @@
-(* C03, round 3 (wave 7): the three result walkers of coq/C03/ResPass.v agree on every result list, and on every list
+(* C03, round 3 (wave 7): of the three result walkers of coq/C03/ResPass.v the shim and generated code agree on every
+   result list, whatever the interpreter's call stub accepts the other two place identically, and on every list
    without fall-through (at most two results per register class) the location of a result is the k-th return register
    of its class, k = the number of earlier results of the same class -- NOT its position in the result list. *)
 From Coq Require Import List Bool Arith Lia.
@@ -24,11 +25,34 @@ Proof.
   rewrite IH. reflexivity.
 Qed.
 
-Lemma shim_ff_agree : forall ts, res_shim_walk ts = res_ff_walk ts.
+Lemma shim_gen_agree : forall ts, res_shim_walk ts = res_gen_walk ts.
 Proof. intros ts. apply walk_agree. Qed.
 
-Lemma ff_gen_agree : forall ts, res_ff_walk ts = res_gen_walk ts.
-Proof. reflexivity. Qed.
+(* whatever the call stub accepts, the fall-through walkers place identically *)
+Lemma ff_step_sound : forall s t x, ff_res_step s t = Some x -> res_step ff_ireg s t = Some x.
+Proof.
+  intros s t x H. unfold res_step. destruct t; simpl in *.
+  - destruct (r_nx s <? 2); [exact H|discriminate].
+  - destruct (r_nx s <? 2); [exact H|discriminate].
+  - destruct (r_nf s <? 2); [exact H|discriminate].
+  - destruct (r_ni s <? 2); [exact H|discriminate].
+Qed.
+
+Lemma ff_walk_sound : forall ts s ls, ff_res_walk s ts = Some ls -> res_walk ff_ireg s ts = Some ls.
+Proof.
+  induction ts as [|t r IH]; intros s ls H; simpl in *; [exact H|].
+  destruct (ff_res_step s t) as [[l s']|] eqn:E; [|discriminate].
+  rewrite (ff_step_sound _ _ _ E).
+  destruct (ff_res_walk s' r) as [ls'|] eqn:E2; [|discriminate].
+  rewrite (IH _ _ E2). exact H.
+Qed.
+
+Lemma ff_accepts_all_agree : forall ts ls, res_ff_walk ts = Some ls ->
+  res_shim_walk ts = Some ls /\ res_gen_walk ts = Some ls.
+Proof.
+  intros ts ls H. apply ff_walk_sound in H. split; [|exact H].
+  unfold res_shim_walk. rewrite walk_agree. exact H.
+Qed.
 
 (* state invariant linking the counters to the results seen so far *)
 Definition res_counts (seen : list rty) (s : rst) : Prop :=
@@ -67,14 +91,45 @@ Proof.
     + unfold res_counts; simpl. rewrite !count_app. simpl. lia.
 Qed.
 
+Lemma ff_walk_spec : forall ts seen s,
+  res_counts seen s -> res_plain (seen ++ ts) = true -> ff_res_walk s ts = Some (spec_from seen ts).
+Proof.
+  induction ts as [|t r IH]; intros seen s [Hi [Hx Hf]] Hp; simpl; [reflexivity|].
+  assert (Hp' : res_plain ((seen ++ [t]) ++ r) = true) by (rewrite <- app_assoc; exact Hp).
+  unfold res_plain in Hp. apply andb_true_iff in Hp. destruct Hp as [Hp H2]. apply andb_true_iff in Hp. destruct Hp as [H0 H1].
+  apply Nat.leb_le in H0, H1, H2.
+  assert (A : forall c, count_cls c (seen ++ t :: r) >= count_cls c seen + (if cls t =? c then 1 else 0)).
+  { intros c. unfold count_cls. rewrite filter_app, app_length. simpl. destruct (cls t =? c); simpl; lia. }
+  pose proof (A 0) as A0. pose proof (A 1) as A1. pose proof (A 2) as A2.
+  destruct t; simpl in *.
+  - assert (E : r_nx s <? 2 = true) by (apply Nat.ltb_lt; lia). rewrite E.
+    rewrite (IH (seen ++ [TF]) _); [rewrite Hx; reflexivity| |exact Hp'].
+    unfold res_counts; simpl. rewrite !count_app. simpl. lia.
+  - assert (E : r_nx s <? 2 = true) by (apply Nat.ltb_lt; lia). rewrite E.
+    rewrite (IH (seen ++ [TD]) _); [rewrite Hx; reflexivity| |exact Hp'].
+    unfold res_counts; simpl. rewrite !count_app. simpl. lia.
+  - assert (E : r_nf s <? 2 = true) by (apply Nat.ltb_lt; lia). rewrite E.
+    rewrite (IH (seen ++ [TLD]) _); [rewrite Hf; reflexivity| |exact Hp'].
+    unfold res_counts; simpl. rewrite !count_app. simpl. lia.
+  - assert (E : r_ni s <? 2 = true) by (apply Nat.ltb_lt; lia). rewrite E.
+    rewrite (IH (seen ++ [TInt]) _); [| |exact Hp'].
+    + rewrite Hi. unfold ff_ireg. destruct (count_cls 0 seen); reflexivity.
+    + unfold res_counts; simpl. rewrite !count_app. simpl. lia.
+Qed.
+
 Lemma walkers_meet_spec : forall ts, res_plain ts = true ->
   res_shim_walk ts = Some (res_spec ts) /\ res_ff_walk ts = Some (res_spec ts) /\ res_gen_walk ts = Some (res_spec ts).
 Proof.
   intros ts Hp.
   assert (H : res_ff_walk ts = Some (res_spec ts)).
-  { apply walk_spec; [unfold res_counts, r_init; simpl; auto | exact Hp]. }
-  split; [rewrite shim_ff_agree; exact H | split; [exact H | rewrite <- (ff_gen_agree ts) at 1; exact H]].
+  { apply ff_walk_spec; [unfold res_counts, r_init; simpl; auto | exact Hp]. }
+  destruct (ff_accepts_all_agree _ _ H) as [H1 H2]. auto.
 Qed.
+
+Lemma result_agreement : forall ts,
+  res_shim_walk ts = res_gen_walk ts /\
+  (forall ls, res_ff_walk ts = Some ls -> res_shim_walk ts = Some ls /\ res_gen_walk ts = Some ls).
+Proof. intros ts. split; [exact (shim_gen_agree ts)|exact (ff_accepts_all_agree ts)]. Qed.
 
 (* the neighbourhood of the seeded change: an integer result AFTER a floating one is in rax *)
 Lemma int_after_fp_in_rax : res_shim_walk [TD; TInt] = Some [Xmm 0; Gpr 0] /\ res_shim_walk [TF; TInt] = Some [Xmm 0; Gpr 0]
